@@ -9,7 +9,7 @@
  * @link lib/common/zstd_common.c lib/common/error_private.c
  * @mem loop
  * @cbmc --unwind 8 --unwindset __builtin_memcpy.0:8,ZSTD_seekable_decompress.0:9,ZSTD_seekable_decompress.1:4
- * @timeout 600
+ * @timeout 1500
  * @memgb 8
  * @instance step_small backend=cadical cbmc="--unwindset ZSTD_seekable_decompress.0:7,ZSTD_seekable_decompress.1:4" -DH_STEP -DDMAXF=2 -DCMAXF=1
  * @instance step tier=thorough timeout=1500 -DH_STEP
